@@ -133,6 +133,9 @@ impl R2ROperator<Triple, Vec<PhysicalOperator>, Vec<(String, String)>> for Simpl
     }
 
     fn add(&mut self, data: Triple) {
+        // A triple that arrives as raw window content is no longer "derived last cycle":
+        // the next materialize() must not evict it.
+        self.derived_triples.retain(|t| t != &data);
         self.item.add_triple(data);
     }
 
